@@ -84,13 +84,20 @@ theorem IsPartition.sum_split {c q ni : ℕ} {im : Fin c → Fin ni} {inn : Fin 
   rw [← Function.Bijective.sum_comp h f, Fintype.sum_sum_type]
   rfl
 
+/-- the weaker form of `IsPartition` that the algebra needs: sums over the independent DOF split -/
+def SumSplit (K : Type) [Field K] {c q ni : ℕ} (im : Fin c → Fin ni) (inn : Fin q → Fin ni) : Prop :=
+  ∀ f : Fin ni → K, ∑ k, f k = ∑ j, f (im j) + ∑ j, f (inn j)
+
+theorem IsPartition.sumSplit {c q ni : ℕ} {im : Fin c → Fin ni} {inn : Fin q → Fin ni}
+    (h : IsPartition im inn) : SumSplit K im inn := fun f => h.sum_split f
+
 /-- a product over the independent DOF splits over the partition -/
-theorem IsPartition.mul_split {c q ni n s : ℕ} {im : Fin c → Fin ni} {inn : Fin q → Fin ni}
-    (h : IsPartition im inn) (R : Mx K n ni) (Z : Mx K ni s) :
+theorem SumSplit.mul_split {c q ni n s : ℕ} {im : Fin c → Fin ni} {inn : Fin q → Fin ni}
+    (h : SumSplit K im inn) (R : Mx K n ni) (Z : Mx K ni s) :
     toM R * toM Z = toM (R.selCols im) * toM (Z.selRows im) + toM (R.selCols inn) * toM (Z.selRows inn) := by
   funext i j
   simp only [Matrix.mul_apply, Matrix.add_apply, Mx.selCols, Mx.selRows]
-  exact h.sum_split fun k => R i k * Z k j
+  exact h fun k => R i k * Z k j
 
 theorem selRows_mul {n k m r : ℕ} (a : Mx K n k) (b : Mx K k m) (f : Fin r → Fin n) :
     toM (a.selRows f) * toM b = toM (Mx.selRows (toM a * toM b) f) := by
@@ -122,9 +129,9 @@ theorem rbe3Alg_mul_rb {m nd : ℕ} (solve : Solver K)
 /-- m-set inside the independent set: the new matrix gives the m-set motion from the motion of the
 dependent DOF and of the remaining independent DOF, whenever the old one gives the dependent motion
 from the independent motion -/
-theorem umIndep_spec {nd ni q s : ℕ} (solve : Solver K)
+theorem umIndep_spec' {nd ni q s : ℕ} (solve : Solver K)
     (hs : ExactSolve solve) (R : Mx K nd ni) (im : Fin nd → Fin ni) (inn : Fin q → Fin ni)
-    (hp : IsPartition im inn) (hRm : IsUnit (toM (R.selCols im)).det)
+    (hp : SumSplit K im inn) (hRm : IsUnit (toM (R.selCols im)).det)
     (Zi : Mx K ni s) (Zd : Mx K nd s) (h : toM R * toM Zi = toM Zd) :
     toM (umIndep solve R im inn).mx * toM (Mx.vstack Zd (Zi.selRows inn)) = toM (Zi.selRows im) := by
   apply left_cancel_of_isUnit hRm
@@ -139,9 +146,9 @@ theorem umIndep_spec {nd ni q s : ℕ} (solve : Solver K)
 
 /-- mixed m-set: rows `dm` of the dependent DOF and columns `im` of the independent DOF become
 dependent; `C = R[dn, im]` must be invertible -/
-theorem umMixed_spec {nd ni r c q s : ℕ} (solve : Solver K)
+theorem umMixed_spec' {nd ni r c q s : ℕ} (solve : Solver K)
     (hs : ExactSolve solve) (R : Mx K nd ni) (dm : Fin r → Fin nd) (dn : Fin c → Fin nd)
-    (im : Fin c → Fin ni) (inn : Fin q → Fin ni) (hp : IsPartition im inn)
+    (im : Fin c → Fin ni) (inn : Fin q → Fin ni) (hp : SumSplit K im inn)
     (hC : IsUnit (toM ((R.selRows dn).selCols im)).det)
     (Zi : Mx K ni s) (Zd : Mx K nd s) (h : toM R * toM Zi = toM Zd) :
     toM (umMixed solve R dm dn im inn).mx * toM (Mx.vstack (Zd.selRows dn) (Zi.selRows inn))
@@ -178,6 +185,22 @@ theorem umMixed_spec {nd ni r c q s : ℕ} (solve : Solver K)
           (Mx.hstack (Mx.zero : Mx K r c) ((R.selRows dm).selCols inn))) E := by
     simp only [umMixed, tab_mx, hE]
   rw [hY, vstack_mul, Mx.add_eq, Mx.mul_eq, hFZ, hEZ]
+
+theorem umIndep_spec {nd ni q s : ℕ} (solve : Solver K)
+    (hs : ExactSolve solve) (R : Mx K nd ni) (im : Fin nd → Fin ni) (inn : Fin q → Fin ni)
+    (hp : IsPartition im inn) (hRm : IsUnit (toM (R.selCols im)).det)
+    (Zi : Mx K ni s) (Zd : Mx K nd s) (h : toM R * toM Zi = toM Zd) :
+    toM (umIndep solve R im inn).mx * toM (Mx.vstack Zd (Zi.selRows inn)) = toM (Zi.selRows im) :=
+  umIndep_spec' solve hs R im inn hp.sumSplit hRm Zi Zd h
+
+theorem umMixed_spec {nd ni r c q s : ℕ} (solve : Solver K)
+    (hs : ExactSolve solve) (R : Mx K nd ni) (dm : Fin r → Fin nd) (dn : Fin c → Fin nd)
+    (im : Fin c → Fin ni) (inn : Fin q → Fin ni) (hp : IsPartition im inn)
+    (hC : IsUnit (toM ((R.selRows dn).selCols im)).det)
+    (Zi : Mx K ni s) (Zd : Mx K nd s) (h : toM R * toM Zi = toM Zd) :
+    toM (umMixed solve R dm dn im inn).mx * toM (Mx.vstack (Zd.selRows dn) (Zi.selRows inn))
+      = toM (Mx.vstack (Zd.selRows dm) (Zi.selRows im)) :=
+  umMixed_spec' solve hs R dm dn im inn hp.sumSplit hC Zi Zd h
 
 end field
 
